@@ -875,7 +875,7 @@ impl<F: Fam> Ctx<F> {
                         None => {
                             if key_adding && post.hook.main_buckets != pre.hook.main_buckets && pre.hook.main_len > 0 {
                                 // grew and finished within the same call (L0 <= R)
-                                if pre.hook.main_len > r * f.adds.max(1) {
+                                if pre.hook.main_len.saturating_sub(f.removed_from_main) > r * f.adds.max(1) {
                                     fail!(self, [C02, C03], "all-at-once-growth",
                                         "table grew from {} to {} buckets with {} elements and no old table was kept",
                                         pre.hook.main_buckets, post.hook.main_buckets, pre.hook.main_len);
